@@ -2,6 +2,7 @@
   C01 — lookups return only the latest live value for a key, never stale or phantom data.
 -/
 import MiniMoka.Lemmas.UnsyncLookup
+import MiniMoka.Lemmas.SyncLookup
 
 namespace MiniMoka
 namespace Props
@@ -36,6 +37,32 @@ example : oracleC01 .unsync [(.ins 1 10, .ok), (.ins 1 11, .ok), (.get 1, .val (
 
 example : oracleC01 .unsync [(.ins 1 10, .ok), (.inv 1, .ok), (.has 1, .bool true)] = false := by
   decide
+
+/-- C01 on the concurrent cache driven by one thread, for every configuration and every
+history over insert, get, contains_key, iter, invalidate, invalidate_all, clock advances and
+`sync` calls placed anywhere (so with any number of operations still queued, and with the
+maintenance runs that insert/get/invalidate perform on their own): a yielded key has a most
+recent insert that has not been invalidated by key, nor by an invalidate_all issued at a
+strictly later clock reading; a yielded value is the value of that insert. The trace is judged
+up to the first internal panic, if any (absence of panics is C08). -/
+theorem C01_sync (p : Params) (hq : Sync.NoQuirks p) (h : List Op) :
+    oracleC01 .sync (Sync.trace p h) = true := by
+  unfold oracleC01 Sync.trace
+  refine Sync.lookupOracle_of_coupled hq _ ?_ h {} {} (Sync.init_coupled p)
+  intro g kv hkv
+  simp only [Sync.allChecks, Bool.and_eq_true] at hkv
+  exact hkv.1.1
+
+/-- Non-vacuity on the concurrent cache: un-synced burst, invalidate while the insert is
+still queued, re-insert, invalidate_all at the same and at a later clock reading. -/
+example : oracleC01 .sync (Sync.trace { cap := some 2 }
+    [.ins 1 10, .ins 2 20, .get 1, .inv 1, .get 1, .ins 1 11, .get 1, .adv 600000000, .ins 3 30,
+     .ins 4 40, .iter, .invAll, .get 3, .adv 1, .ins 3 31, .invAll, .get 3, .has 4, .sync, .iter])
+    = true := by
+  decide +kernel
+
+-- Note: the defects repaired on the concurrent cache (D6, D7) lose or hide values; a lost
+-- value is "nothing" for C01, so they are witnessed under C03/C08/C10, not here.
 
 end Props
 end MiniMoka
